@@ -265,12 +265,13 @@ def grammar(tier):
         ("tie_inside_repeat", dict(n=3, repeats=[(0, 1)], tie=0)),
         ("slur_inside_repeat", dict(n=3, repeats=[(0, 1)], slur=(0, 1))),
         ("ts_change_inside_repeat", dict(n=4, repeats=[(1, 2)], ts_change=2)),
+        ("slur_across_boundary", dict(n=4, repeats=[(1, 2)], slur=(0, 2))),
     ]
     if tier == "thorough":
         cases += [("three_repeats", dict(n=6, repeats=[(0, 0), (2, 3), (5, 5)])),
                   ("nested_with_tail", dict(n=6, repeats=[(0, 4), (2, 3)])),
                   ("volta_and_second_repeat", dict(n=6, repeats=[(0, 1), (4, 4)], endings=[("1", 1, 1), ("2", 2, 2)])),
-                  ("slur_across_boundary", dict(n=4, repeats=[(1, 2)], slur=(0, 2)))]
+                  ]
     return cases
 
 
@@ -298,10 +299,14 @@ def bounded(b):
         nav = {k: kw.get(k) for k in ("segno", "dalsegno", "tocoda", "coda")}
         jump_at = kw.get("dacapo") if kw.get("dacapo") is not None else kw.get("dalsegno")
         mid_jump = jump_at is not None and jump_at < n - 1  # music follows the jump mark (as with a coda)
+        bounds = {x for (s_, e_) in reps for x in (s_, e_ + 1)} | {x for (_, s_, e_) in ends for x in (s_, e_ + 1)}
+        crosses = kw.get("slur") is not None and any(kw["slur"][0] < x <= kw["slur"][1] for x in bounds)
         for upd in (True, False):
             case = {"shape": name, "update_ids": upd}
             if mid_jump:
                 case["jump_mark_followed_by_more_music"] = True
+            if crosses:
+                case["range_crosses_a_segment_boundary"] = True
             part = mk()
             before = G.fingerprint(part)
             ok, un = b.guard("unfold/maximal_no_exception", case, lambda: sc.unfold_part_maximal(part, update_ids=upd))
@@ -384,6 +389,9 @@ def _check_copy(b, case, orig, un, want, upd, nontriv):
            "length %r, sum of visited segments %r" % (un.last_point.t - un.first_point.t, D * len(want)), nontrivial=nontriv)
     inside = set(map(id, un.iter_all()))
     pts = set(map(id, un._points))
+    # a slur or tuplet whose two notes lie in different segments: "references between copied objects stay inside the copy" says where a
+    # reference may point, not that a reference leaving the segment survives; there an empty (None) end is accepted, a foreign one is not
+    crossing = bool(case.get("range_crosses_a_segment_boundary"))
     ok, what = True, ""
     for o in un.iter_all():
         for attr in getattr(o, "_ref_attrs", []):
@@ -402,12 +410,14 @@ def _check_copy(b, case, orig, un, want, upd, nontriv):
     # both directions of every slur / tuplet link: the copied range object names its notes, and those notes list that very object
     for rng, sa, ea in [(x, "slur_starts", "slur_stops") for x in un.iter_all(sc.Slur)] + [(x, "tuplet_starts", "tuplet_stops") for x in un.iter_all(sc.Tuplet)]:
         a, z = rng.start_note, rng.end_note
+        if crossing and (a is None or z is None) and all(x is None or id(x) in inside for x in (a, z)):
+            continue  # the other end lies in another segment: the copy of this visit has no object to name (the library warns "substituting None")
         if a is None or z is None or id(a) not in inside or id(z) not in inside:
             ok, what = False, "%s in the copy has start/end note %r/%r outside the copy" % (type(rng).__name__, getattr(a, "id", None), getattr(z, "id", None))
         elif not any(x is rng for x in getattr(a, sa)) or not any(x is rng for x in getattr(z, ea)):
             ok, what = False, "%s %s..%s: the notes' %s/%s do not list it (%r / %r)" % (type(rng).__name__, a.id, z.id, sa, ea, getattr(a, sa), getattr(z, ea))
     for nt in notes:
         for attr in ("slur_starts", "slur_stops", "tuplet_starts", "tuplet_stops"):
-            if any(x is None or id(x) not in inside for x in getattr(nt, attr)):
+            if any((x is None and not crossing) or (x is not None and id(x) not in inside) for x in getattr(nt, attr)):
                 ok, what = False, "note %s: %s holds %r (lost or outside the copy)" % (nt.id, attr, getattr(nt, attr))
     b.case("unfold/references_stay_inside_the_copy", ok, case, what, nontrivial=nontriv)
